@@ -70,11 +70,16 @@ pub trait Checker: Sync {
     fn cfg(&self) -> WorldCfg;
     /// named seeds, each an operation prefix executed (and checked) on the fresh deployment
     fn seeds(&self) -> Vec<(String, Vec<Self::Op>)>;
+    /// observation of the pre-state, computed once per state and shared by all its operations
+    type Pre;
+    fn pre(&self, w: &mut World, g: &Self::Ghost) -> Self::Pre;
     /// small finite menu computed from the state
-    fn enabled(&self, w: &mut World, g: &Self::Ghost) -> Vec<Self::Op>;
+    fn enabled(&self, w: &mut World, g: &Self::Ghost, pre: &Self::Pre) -> Vec<Self::Op>;
     /// `w` is in the pre-state. Executes `op` on the real code, evaluates the oracle, returns
     /// Some(ghost') iff the operation was accepted (state may have changed).
-    fn step(&self, w: &mut World, g: &Self::Ghost, op: &Self::Op, rec: &mut Rec) -> Option<Self::Ghost>;
+    fn step(&self, w: &mut World, g: &Self::Ghost, pre: &Self::Pre, op: &Self::Op, rec: &mut Rec) -> Option<Self::Ghost>;
+    /// plain execution without oracle (used to re-derive states whose snapshot was not retained)
+    fn apply(&self, w: &mut World, op: &Self::Op) -> bool;
     /// state invariant evaluated once per *new* state (w is in that state; may be mutated freely)
     fn on_new_state(&self, _w: &mut World, _g: &Self::Ghost, _rec: &mut Rec) {}
     fn op_kind(&self, op: &Self::Op) -> String {
@@ -84,7 +89,9 @@ pub trait Checker: Sync {
 }
 
 pub struct Node<C: Checker + ?Sized> {
-    pub snap: Snapshot,
+    /// None when the level was too large to retain whole-chain snapshots: the state is then
+    /// re-derived by re-executing `hist` from the seed snapshot (same code, no oracle)
+    pub snap: Option<Snapshot>,
     pub ghost: C::Ghost,
     pub seed: usize,
     pub hist: Vec<C::Op>,
@@ -129,10 +136,12 @@ pub struct ExploreReport {
 pub struct Caps {
     pub wall_s: f64,
     pub max_level_states: usize,
+    /// at most this many whole-chain snapshots are retained per level (memory bound)
+    pub max_level_snapshots: usize,
 }
 impl Default for Caps {
     fn default() -> Self {
-        Caps { wall_s: 1200.0, max_level_states: 700_000 }
+        Caps { wall_s: 1200.0, max_level_states: 20_000_000, max_level_snapshots: 150_000 }
     }
 }
 
@@ -152,6 +161,24 @@ pub fn with_world<R>(key: &str, cfg: &dyn Fn() -> WorldCfg, f: impl FnOnce(&mut 
             *slot = Some((key.to_string(), World::new(&cfg())));
         }
         f(&mut slot.as_mut().unwrap().1)
+    })
+}
+
+thread_local! {
+    static TL_SCRATCH: RefCell<Option<World>> = RefCell::new(None);
+}
+
+/// A second per-thread world for twin runs / hypothetical continuations inside an oracle.
+pub fn with_scratch<R>(cfg: &WorldCfg, snap: &Snapshot, f: impl FnOnce(&mut World) -> R) -> R {
+    TL_SCRATCH.with(|cell| {
+        let mut slot = cell.borrow_mut();
+        if slot.is_none() {
+            *slot = Some(World::new(cfg));
+        }
+        let w = slot.as_mut().unwrap();
+        w.tf_fee = cfg.tf_fee.clone();
+        w.restore(snap);
+        f(w)
     })
 }
 
@@ -210,7 +237,8 @@ pub fn build_seed<C: Checker>(c: &C, w: &mut World, prefix: &[C::Op], rec: &mut 
     *w = World::new(&c.cfg());
     let mut g = C::Ghost::default();
     for op in prefix {
-        match c.step(w, &g, op, rec) {
+        let pre = c.pre(w, &g);
+        match c.step(w, &g, &pre, op, rec) {
             Some(g2) => g = g2,
             None => panic!("MACHINERY: seed prefix operation not accepted in {}: {:?}", c.name(), op),
         }
@@ -225,22 +253,24 @@ pub fn explore<C: Checker>(c: &C, depth: usize, caps: &Caps) -> ExploreReport {
     let seeds = c.seeds();
     let seen = Seen::new();
     let mut frontier: Vec<Node<C>> = vec![];
+    let mut seed_snaps: Vec<Snapshot> = vec![];
     let mut total = Rec::default();
     let cfgf = || c.cfg();
     for (i, (sname, prefix)) in seeds.iter().enumerate() {
         let mut rec = Rec::default();
         let node = with_world(&name, &cfgf, |w| {
             let g = build_seed(c, w, prefix, &mut rec);
-            c.on_new_state(w, &g, &mut rec);
+            let g2 = g.clone();
             let snap = w.snapshot();
-            w.restore(&snap);
-            Node::<C> { snap, ghost: g, seed: i, hist: vec![] }
+            c.on_new_state(w, &g2, &mut rec);
+            Node::<C> { snap: Some(snap), ghost: g, seed: i, hist: vec![] }
         });
+        seed_snaps.push(node.snap.clone().unwrap());
         for v in rec.viols.drain(..) {
-            record_viol(&mut rep, v, sname, &prefix[..0], prefix.last(), 0);
+            record_viol(&mut rep, v, sname, &prefix[..0], None::<&C::Op>, 0);
         }
         total.merge(rec);
-        if seen.insert(hash128(&node.snap, &node.ghost)) {
+        if seen.insert(hash128(node.snap.as_ref().unwrap(), &node.ghost)) {
             frontier.push(node);
         }
     }
@@ -251,6 +281,8 @@ pub fn explore<C: Checker>(c: &C, depth: usize, caps: &Caps) -> ExploreReport {
     for d in 1..=depth {
         let last = d == depth;
         let level_new = AtomicU64::new(0);
+        let level_snaps = AtomicU64::new(0);
+        let seed_snaps = &seed_snaps;
         let results: Vec<(Vec<Node<C>>, Rec, Vec<(Viol, usize, Vec<C::Op>, C::Op)>)> = frontier
             .par_iter()
             .map(|n| {
@@ -265,13 +297,31 @@ pub fn explore<C: Checker>(c: &C, depth: usize, caps: &Caps) -> ExploreReport {
                     return (out, rec, vs);
                 }
                 with_world(&name, &cfgf, |w| {
-                    w.restore(&n.snap);
-                    let ops = c.enabled(w, &n.ghost);
+                    // materialise the node's state
+                    let derived;
+                    let nsnap: &Snapshot = match &n.snap {
+                        Some(s) => s,
+                        None => {
+                            w.restore(&seed_snaps[n.seed]);
+                            for o in &n.hist {
+                                if !c.apply(w, o) {
+                                    eprintln!("MACHINERY ERROR: re-derivation of a state diverged in {name}");
+                                    std::process::exit(2);
+                                }
+                            }
+                            derived = w.snapshot();
+                            &derived
+                        }
+                    };
+                    w.restore(nsnap);
+                    let pre = c.pre(w, &n.ghost);
+                    w.restore(nsnap);
+                    let ops = c.enabled(w, &n.ghost, &pre);
                     for op in ops {
-                        w.restore(&n.snap);
+                        w.restore(nsnap);
                         transitions.fetch_add(1, Ordering::Relaxed);
                         let before = rec.viols.len();
-                        let r = c.step(w, &n.ghost, &op, &mut rec);
+                        let r = c.step(w, &n.ghost, &pre, &op, &mut rec);
                         let kind = c.op_kind(&op);
                         if let Some(g2) = r {
                             accepted.fetch_add(1, Ordering::Relaxed);
@@ -283,7 +333,8 @@ pub fn explore<C: Checker>(c: &C, depth: usize, caps: &Caps) -> ExploreReport {
                                 if !last {
                                     let mut hist = n.hist.clone();
                                     hist.push(op.clone());
-                                    out.push(Node::<C> { snap, ghost: g2, seed: n.seed, hist });
+                                    let keep = (level_snaps.fetch_add(1, Ordering::Relaxed) as usize) < caps.max_level_snapshots;
+                                    out.push(Node::<C> { snap: if keep { Some(snap) } else { None }, ghost: g2, seed: n.seed, hist });
                                 }
                             }
                         } else {
@@ -323,13 +374,14 @@ pub fn explore<C: Checker>(c: &C, depth: usize, caps: &Caps) -> ExploreReport {
             let ok = with_world(&name, &cfgf, |w| {
                 let mut g = build_seed(c, w, &seeds[n.seed].1, &mut rec);
                 for op in &n.hist {
-                    match c.step(w, &g, op, &mut rec) {
+                    let pre = c.pre(w, &g);
+                    match c.step(w, &g, &pre, op, &mut rec) {
                         Some(g2) => g = g2,
                         None => return false,
                     }
                 }
                 let s = w.snapshot();
-                s == n.snap && g == n.ghost
+                n.snap.as_ref().map_or(true, |x| &s == x) && g == n.ghost
             });
             if !ok {
                 eprintln!("MACHINERY ERROR: linear replay from genesis differs from explored state in {name}: seed {} hist {:?}", seeds[n.seed].0, n.hist);
@@ -393,7 +445,8 @@ pub fn replay<C: Checker>(c: &C, seed: &str, hist: &[C::Op], op: Option<&C::Op>)
     let mut w = World::new(&c.cfg());
     let mut g = build_seed(c, &mut w, prefix, &mut rec);
     for o in hist {
-        match c.step(&mut w, &g, o, &mut rec) {
+        let pre = c.pre(&mut w, &g);
+        match c.step(&mut w, &g, &pre, o, &mut rec) {
             Some(g2) => {
                 g = g2;
                 let s = w.snapshot();
@@ -407,7 +460,8 @@ pub fn replay<C: Checker>(c: &C, seed: &str, hist: &[C::Op], op: Option<&C::Op>)
         }
     }
     if let Some(o) = op {
-        if let Some(g2) = c.step(&mut w, &g, o, &mut rec) {
+        let pre = c.pre(&mut w, &g);
+        if let Some(g2) = c.step(&mut w, &g, &pre, o, &mut rec) {
             c.on_new_state(&mut w, &g2, &mut rec);
         }
     }
